@@ -166,6 +166,40 @@ def gen_random(scn, rng, depth):
     return hist
 
 
+def gen_allocs(scn, rng, depth):
+    """Focused L2 histories on allocation documents changing under placed
+    instances: servers are moved between partitions first (so that a partition
+    has servers with and without a trait), instances of every assignment pattern
+    are placed, then the allocation document is replaced (partition, traits,
+    priorities of the assignments change) with cycles in between."""
+    servers = sorted(s for s, k in scn['server_init'].items() if k)
+    labels = ['_default'] + list(scn.get('partitions') or [])
+    hist = []
+    for s in servers:
+        if rng.random() < 0.6:
+            hist.append(('SetPartition', [s, rng.choice(labels)]))
+    napps = rng.randrange(2, len(scn['apps']) + 1)
+    for j in range(napps):
+        hist.append(('CreateApp', [scn['apps'][j], rng.randrange(len(scn['aprofiles'])) + 1]))
+    hist.append(('Cycle', []))
+    for _ in range(depth):
+        r = rng.random()
+        if r < 0.45:
+            hist.append(('SetAllocs', [rng.randrange(len(scn['allocsets'])) + 1]))
+            hist.append(('Cycle', []))
+        elif r < 0.6:
+            hist.append(('SetPartition', [rng.choice(servers), rng.choice(labels)]))
+        elif r < 0.7:
+            hist.append(('Tick', [rng.choice([1, 3, 6])]))
+        elif r < 0.8:
+            hist.append(('Restart', []))
+        else:
+            hist.append(('Cycle', []))
+    hist.append(('Cycle', []))
+    hist.append(('Restart', []))
+    return hist
+
+
 def gen_servers(scn, rng, depth):
     """Focused L2 histories on the server life cycle: instances placed, then a
     small alphabet of server events - presence lost / re-registered with another
